@@ -1,4 +1,5 @@
 import TPV.Model.GeomTerm
+import TPV.Model.GeomSdf
 open TPV TPV.Proto TPV.Geom
 
 def showOB : Option Bool → String
@@ -18,6 +19,12 @@ def step (line : String) : String :=
       let res := containsAux τ onB d pts ρ
       let mg := margin τ onB d pts ρ
       return s!"{showOB res} {match mg with | some m => showRat m | none => "none"}"
+    | "sd" => do
+      -- signed CSG margin (TPV.Model.GeomSdf; soundness: Props/C01.lean sd_pos_mem / sd_neg_not_mem)
+      let d ← parseDom rat
+      let pts ← parseEnv rat
+      let ρ ← parseEnv rat
+      return (match sd d pts ρ with | some m => showRat m | none => "none")
     | "freevars" => do
       let d ← parseDom rat
       return " ".intercalate d.freeVars
